@@ -21,7 +21,7 @@ ISOLATE = "chunk"       # every chunk of runs in a forked child of a pristine wo
                         # deterministic function of the runs before it in the same chunk (see runner.run_history_iso)
 SHRINK_LISTS = ("ops",)
 PROBES = {"C03": ["history>=1000", "history>=10000", "act4:w=0", "float32", "batched", "scale-steered",
-                  "assoc", "act-compose", "identity", "inverse", "reinit-from-identity", "logscale>8", "identity_-through-view:[::2]", "identity_-through-view:[:, 0]", "operand:expanded", "operand:broadcast", "operand:non-contiguous", "operand:deepcopied", "translation-rebased", "operand:exact-half-turn", "act-operator-forms", "act:large-cloud", "large-batch-products", "act:stacked-point-sets"]}
+                  "assoc", "act-compose", "identity", "inverse", "reinit-from-identity", "logscale>8", "identity_-through-view:[::2]", "identity_-through-view:[:, 0]", "operand:expanded", "operand:broadcast", "operand:non-contiguous", "operand:deepcopied", "translation-rebased", "operand:exact-half-turn", "act-operator-forms", "act:large-cloud", "large-batch-products", "act:stacked-point-sets", "act:origin"]}
 TS = float(os.environ.get("PPSIM_TOLSCALE", "1"))
 UPDATES = ("mulr", "mull", "inv", "add_", "plus", "retr", "idl", "idr", "reinit", "ident_view")
 PROBE_OPS = ("act3", "act4", "assoc", "actcomp", "access", "invlaw", "actop")
@@ -351,6 +351,7 @@ def execute(plan, prop, out, tr):
             if op == "act3" and i % 3 == 0:
                 # one transform acting on a large cloud (300 points), through a broadcast over the point axis
                 p = rng.randn(s, ("g", i, "pbig"), bs + (300, 3), dtype, 2.0)
+                p[..., 0, :] = 0.0          # the origin is one of the points
                 Xb_ = X.unsqueeze(-2) if bs else X
                 got = npd(Xb_.Act(p))
                 want = np.einsum("...ij,...kj->...ki", MX[..., :3, :3], npd(p)) + MX[..., None, :3, 3]
@@ -360,6 +361,9 @@ def execute(plan, prop, out, tr):
                 out.probe("act:large-cloud")
             elif op == "act3":
                 p = rng.randn(s, ("g", i, "p"), bs + (3,), dtype, 2.0)
+                if i % 4 == 1:
+                    p.reshape(-1, 3)[0] = 0.0       # the origin (of the first batch item)
+                    out.probe("act:origin")
                 got = npd(X.Act(p))
                 want = np.einsum("...ij,...j->...i", MX[..., :3, :3], npd(p)) + MX[..., :3, 3]
                 e = np.abs(got - want).max()
